@@ -61,7 +61,7 @@ def global_hook(eng, name):
     if name in ("get_solution", "flux_variability_analysis"):
         return VFunc("abstract", name)
     if name == "Zero":
-        return N.VNp(z3.Const("np:optlang.Zero", N.NP))
+        return N.VNp(z3.Const("np:Zero", N.NP))
     if name == "find_boundary_types":
         return VFunc("repo", "find_boundary_types")
     return None
@@ -158,7 +158,7 @@ def _post_for(is_open, listed):
         cs.append(_opened(E, fva["state"], n_ex, is_open))
         # (2) the objective was replaced by Zero before FVA ran
         cs.append(z3.BoolVal(isinstance(fva["state"].ghost.get("objective_set"), N.VNp)))
-        cs.append(obj.t == z3.Const("np:optlang.Zero", N.NP) if isinstance(obj, N.VNp) else z3.BoolVal(False))
+        cs.append(obj.t == z3.Const("np:Zero", N.NP) if isinstance(obj, N.VNp) else z3.BoolVal(False))
         # (3) the pre-filter solution covers the requested reactions
         want_list = (N.app("DictList.get_by_any", N.VNp(z3.Const("np:model.reactions", N.NP)), E["reaction_list"]).t if listed else None)
         r_arg = gs["kw"].get("reactions")
